@@ -18,17 +18,14 @@ structure WF (s : RelativeStrengthIndex F) : Prop where
   up_period : s.up_ema_indicator.period = s.period
   down_period : s.down_ema_indicator.period = s.period
 
-/-- `new` as the code is today (two `ExponentialMovingAverage::new(period)?` calls on the same
-    `period`; `usize::MAX` panics because of `period + 1`). -/
+/-- `new` rejects exactly period 0 and never panics (two `ExponentialMovingAverage::new(period)?`
+    calls on the same `period`). -/
 theorem new_eq (p : Nat) :
     (new p : Res (RelativeStrengthIndex F)) =
-      if p = 0 then .err .InvalidParameter
-      else if p + 1 ≤ usizeMax then .ok (fresh p) else .panic := by
+      if p = 0 then .err .InvalidParameter else .ok (fresh p) := by
   unfold new
   rw [ExponentialMovingAverage.new_eq]
-  by_cases h0 : p = 0
-  · simp [h0, bind, Res.bind]
-  · by_cases h1 : p + 1 ≤ usizeMax <;> simp [h0, h1, bind, Res.bind, fresh]
+  by_cases h0 : p = 0 <;> simp [h0, bind, Res.bind, fresh]
 
 theorem fresh_wf (p : Nat) (hp : 0 < p) : WF (fresh p : RelativeStrengthIndex F) :=
   ⟨ExponentialMovingAverage.fresh_wf p hp, ExponentialMovingAverage.fresh_wf p hp, rfl, rfl⟩
@@ -45,9 +42,11 @@ def loss (s : RelativeStrengthIndex F) (x : F) : F :=
   if s.is_new then Scalar.lit 1 1
   else if Scalar.lt s.prev_val x then Scalar.lit 0 0 else Scalar.sub s.prev_val x
 
-/-- `100.0 * up / (up + down)`, in the code's operation order -/
+/-- `if up + down == 0.0 { 50.0 } else { 100.0 * up / (up + down) }`, in the code's operation
+    order (the guard was added by the repair; a NaN sum compares `false` and takes the division) -/
 def rsiVal (up down : F) : F :=
-  Scalar.div (Scalar.mul (Scalar.lit 100 0) up) (Scalar.add up down)
+  if Scalar.beq (Scalar.add up down) (Scalar.lit 0 0) then Scalar.lit 50 0
+  else Scalar.div (Scalar.mul (Scalar.lit 100 0) up) (Scalar.add up down)
 
 /-- RSI wiring: gains go to the up-EMA, losses to the down-EMA (up first, then down),
     `prev_val` becomes the input, `is_new` is cleared. -/
@@ -62,18 +61,40 @@ theorem next_eq (s : RelativeStrengthIndex F) (x : F) :
   obtain ⟨p, u, d, pv, n⟩ := s
   unfold next gain loss rsiVal
   cases n
-  · cases hlt : Scalar.lt pv x <;> simp [ExponentialMovingAverage.next_eq, hlt]
-  · simp [ExponentialMovingAverage.next_eq]
+  · cases hlt : Scalar.lt pv x <;> simp [ExponentialMovingAverage.next_eq, hlt] <;> split <;> rfl
+  · simp [ExponentialMovingAverage.next_eq]; split <;> rfl
 
-/-- first input: both EMAs are seeded with `0.1`, so the output is `100·0.1 / (0.1 + 0.1)`
-    computed in `F` whatever the input is -/
+/-- first input: both EMAs are seeded with `0.1`, so the output is `rsiVal 0.1 0.1` computed in `F`
+    whatever the input is.  Since the repair this goes through the `== 0.0` guard, which an
+    arbitrary `Scalar` cannot decide: see `next_first_of_ne` for the unguarded value. -/
 theorem next_first (s : RelativeStrengthIndex F) (x : F) (hn : s.is_new = true)
     (hu : s.up_ema_indicator.is_new = true) (hd : s.down_ema_indicator.is_new = true) :
     ∃ r, s.next x = some r ∧
-      r.2 = Scalar.div (Scalar.mul (Scalar.lit 100 0) (Scalar.lit 1 1))
-              (Scalar.add (Scalar.lit 1 1) (Scalar.lit 1 1)) := by
+      r.2 = (if Scalar.beq (Scalar.add (Scalar.lit 1 1) (Scalar.lit 1 1)) (Scalar.lit 0 0 : F)
+             then Scalar.lit 50 0
+             else Scalar.div (Scalar.mul (Scalar.lit 100 0) (Scalar.lit 1 1))
+                    (Scalar.add (Scalar.lit 1 1) (Scalar.lit 1 1))) := by
   refine ⟨_, next_eq s x, ?_⟩
   simp [rsiVal, gain, loss, hn, ExponentialMovingAverage.step, hu, hd]
+
+/-- first input, when `0.1 + 0.1 == 0.0` is false in `F` (true of f64 and of any exact field):
+    the output is `100·0.1 / (0.1 + 0.1)` -/
+theorem next_first_of_ne (s : RelativeStrengthIndex F) (x : F) (hn : s.is_new = true)
+    (hu : s.up_ema_indicator.is_new = true) (hd : s.down_ema_indicator.is_new = true)
+    (hne : Scalar.beq (Scalar.add (Scalar.lit 1 1) (Scalar.lit 1 1)) (Scalar.lit 0 0 : F) = false) :
+    ∃ r, s.next x = some r ∧
+      r.2 = Scalar.div (Scalar.mul (Scalar.lit 100 0) (Scalar.lit 1 1))
+              (Scalar.add (Scalar.lit 1 1) (Scalar.lit 1 1)) := by
+  obtain ⟨r, hr, h2⟩ := next_first s x hn hu hd
+  exact ⟨r, hr, by simpa [hne] using h2⟩
+
+/-- the guard: when the two averages sum to (something `==`) zero the output is `50.0` -/
+theorem rsiVal_zero (up down : F) (h : Scalar.beq (Scalar.add up down) (Scalar.lit 0 0) = true) :
+    rsiVal up down = Scalar.lit 50 0 := by simp [rsiVal, h]
+
+theorem rsiVal_nonzero (up down : F) (h : Scalar.beq (Scalar.add up down) (Scalar.lit 0 0) = false) :
+    rsiVal up down = Scalar.div (Scalar.mul (Scalar.lit 100 0) up) (Scalar.add up down) := by
+  simp [rsiVal, h]
 
 theorem nextBar_eq (s : RelativeStrengthIndex F) (b : Bar F) : s.nextBar b = s.next b.close := by
   unfold nextBar
@@ -105,6 +126,6 @@ theorem display_eq (fmt : F → String) (s : RelativeStrengthIndex F) :
 theorem default_eq : (default_ : Option (RelativeStrengthIndex F)) = some (fresh 14) := by
   unfold default_
   rw [new_eq]
-  simp [unwrap, usizeMax]
+  simp [unwrap]
 
 end TaRs.Gen.RelativeStrengthIndex
